@@ -347,10 +347,17 @@ func (p *ParagraphReader) decodeClearsig(keyring *openpgp.EntityList) error {
 
 	/* Now, we have to go ahead and check that the signature is valid and
 	 * relates to an entity we have in our keyring */
+	/* read the armor to its end first: that is where its checksum gets
+	 * checked, and CheckDetachedSignature stops reading after the packet */
+	signature, err := ioutil.ReadAll(block.ArmoredSignature.Body)
+	if err != nil {
+		return err
+	}
+
 	signer, err := openpgp.CheckDetachedSignature(
 		keyring,
 		bytes.NewReader(block.Bytes),
-		block.ArmoredSignature.Body,
+		bytes.NewReader(signature),
 	)
 
 	if err != nil {
